@@ -137,7 +137,10 @@ def publish_order(ctx):
     g = cfg_of(f)
     w = [c for c in calls_in(f) if call_name(c) == "concurrency_safe_write"]
     mv = [c for c in calls_in(f) if call_name(c) == "self._move_item"]
-    ctx.need(w and mv, "_concurrency_safe_write no longer writes then moves")
+    if not (w and mv):
+        ctx.bad(f, "_concurrency_safe_write no longer writes a temporary file and renames it (%s missing): final names are not published atomically" % ("the rename" if w else "the temporary write"),
+                key=SB + "::StoreBackendMixin._concurrency_safe_write::write-then-rename")
+        return
     tmp = enclosing_stmt(w[0])
     tname = tmp.targets[0].id if isinstance(tmp, ast.Assign) and isinstance(tmp.targets[0], ast.Name) else None
     for c in mv:
@@ -304,7 +307,10 @@ def result_before_meta(ctx):
     g = cfg_of(f)
     d = [c for c in calls_in(f) if call_name(c) == "self.store_backend.dump_item"]
     p = [c for c in calls_in(f) if call_name(c) == "self._persist_input"]
-    ctx.need(d and p, "_after_call no longer dumps the result and persists the inputs")
+    if not d:
+        ctx.bad(f, "_after_call no longer stores the computed result (dump_item): nothing is ever served from the cache", key=MEM + "::MemorizedFunc._after_call::dump_item")
+        return
+    ctx.need(p, "_after_call no longer persists the inputs")
     ctx.check(g.every_path_to(g.nodes_of_all(p), g.nodes_of_all(d)), p[0], "the result is published before its metadata",
               "metadata can be published before the result: `entry present` no longer implies `result complete`")
     ctx.check(g.every_path_from([g.entry], g.nodes_of_all(d)), d[0], "every computed result is stored")
@@ -325,7 +331,9 @@ def code_reader(ctx):
     f = M(ctx, "MemorizedFunc._check_previous_func_code")
     g = cfg_of(f)
     rd = [c for c in calls_in(f) if call_name(c) == "self.store_backend.get_cached_func_code"]
-    ctx.need(rd, "_check_previous_func_code no longer reads the stored source")
+    if not rd:
+        ctx.bad(f, "_check_previous_func_code no longer reads the stored source: code changes across sessions cannot be detected", key=MEM + "::MemorizedFunc._check_previous_func_code::read of stored source")
+        return
     for c in rd:
         tr = None
         for a in ancestors(c):
@@ -351,7 +359,9 @@ def invalidate_order(ctx):
     g = cfg_of(cl)
     cp = [c for c in calls_in(cl) if call_name(c) == "self.store_backend.clear_path"]
     wr = [c for c in calls_in(cl) if call_name(c) == "self._write_func_code"]
-    ctx.need(cp and wr, "MemorizedFunc.clear no longer wipes and rewrites")
+    if not (cp and wr):
+        ctx.bad(cl, "MemorizedFunc.clear no longer %s" % ("stores the current source after wiping" if cp else "wipes the function's entries"), key=MEM + "::MemorizedFunc.clear::wipe and rewrite")
+        return
     ctx.check(g.every_path_to(g.nodes_of_all(wr), g.nodes_of_all(cp)) and not g.path_exists(g.nodes_of_all(wr), g.nodes_of_all(cp)), wr[0],
               "the entries are wiped before the new source is stored",
               "the new source is stored before the old entries are wiped: a kill in between leaves results of the old code that now look valid")
